@@ -656,7 +656,14 @@ func genBigShape(r *rand.Rand) *History {
 			}
 			regs = append(regs, Op{Kind: OpProvide, Fn: newFn(ps, []Res{{K: key(i)}}).ID})
 		}
-		goals = [][]Param{{{K: key(n - 1)}}, {{K: key(n / 2)}}}
+		goals = [][]Param{{{K: key(n - 1)}}, {{K: key(n / 2)}}, {{K: key(n - 1)}}}
+		if r.Intn(2) == 0 {
+			// the far end fails (once or always): the error has to come back through hundreds of levels
+			f0 := h.Fns[regs[0].Fn]
+			kind := []string{"err", "panic", "err"}[r.Intn(3)]
+			f0.HasErr = kind == "err"
+			f0.Faults = map[int]string{[]int{0, 1}[r.Intn(2)]: kind}
+		}
 	case 1:
 		n := 60 + r.Intn(91)
 		var ps []Param
@@ -685,10 +692,19 @@ func genBigShape(r *rand.Rand) *History {
 		}
 		goals = [][]Param{{{K: key(0)}}}
 	}
+	if r.Intn(3) > 0 {
+		for i := range regs {
+			regs[i].Callback = true
+		}
+	}
 	r.Shuffle(len(regs), func(i, j int) { regs[i], regs[j] = regs[j], regs[i] })
 	h.Ops = append(h.Ops, regs...)
 	for _, g := range goals {
 		h.Ops = append(h.Ops, Op{Kind: OpInvoke, Fn: newFn(g, nil).ID})
+		if r.Intn(2) == 0 {
+			// the picture of this Invoke's failure, if it failed (the plain picture otherwise)
+			h.Ops = append(h.Ops, Op{Kind: OpVisualize, VisErrOf: len(h.Ops)})
+		}
 	}
 	return h
 }
